@@ -56,6 +56,15 @@ type c11rawEvent struct {
 type c11Log struct {
 	mu  sync.Mutex
 	evs []c11rawEvent
+
+	// held script: the send goroutine that is about to write call holdID waits in the hook until released
+	holdID  int
+	held    chan struct{}
+	release chan struct{}
+}
+
+func c11NewLog() *c11Log {
+	return &c11Log{holdID: -1, held: make(chan struct{}, 1), release: make(chan struct{})}
 }
 
 func (l *c11Log) add(e c11rawEvent) {
@@ -129,7 +138,21 @@ func c11InstallHook() {
 			if c11ReqCallNo(req) == c11WarmID {
 				return
 			}
-			v.(*c11Log).add(c11rawEvent{k: "write", tc: tc, port: c11PortOf(conn.LocalAddr()), id: c11ReqCallNo(req), dead: c11ClosedLocally(conn), cur: current})
+			l, id := v.(*c11Log), c11ReqCallNo(req)
+			l.add(c11rawEvent{k: "write", tc: tc, port: c11PortOf(conn.LocalAddr()), id: id, dead: c11ClosedLocally(conn), cur: current})
+			l.mu.Lock()
+			hold := l.holdID >= 0 && id == l.holdID
+			if hold {
+				l.holdID = -1 // only the first write attempt of that call is held
+			}
+			l.mu.Unlock()
+			if hold {
+				l.held <- struct{}{}
+				select {
+				case <-l.release:
+				case <-time.After(10 * time.Second):
+				}
+			}
 		}
 	})
 }
@@ -204,6 +227,16 @@ func (s *c11Server) stop() {
 	s.mu.Unlock()
 	ln.Close()
 	s.wg.Wait()
+}
+
+// closeConns (mode "cmd") closes every open connection on command; the listener stays.
+func (s *c11Server) closeConns() {
+	s.mu.Lock()
+	defer s.mu.Unlock()
+	for c := range s.conns {
+		s.log.add(c11rawEvent{k: "pclose", port: c11PortOf(c.RemoteAddr()), id: -1})
+		c.Close()
+	}
 }
 
 // restart closes the listener and every connection and listens again on the same port.
@@ -362,7 +395,7 @@ type c11Case struct {
 	Rounds  int    `json:"rounds"`   // number of closes
 
 	Events   []c11Event `json:"events,omitempty"`
-	Retries  int        `json:"retries,omitempty"`   // re-runs made after a timing failure
+	Retries  int        `json:"retries,omitempty"`    // re-runs made after a timing failure
 	Repro    int        `json:"reproduced,omitempty"` // how many of them showed the same failure
 	SetupErr string     `json:"setup_err,omitempty"`
 }
@@ -385,11 +418,15 @@ func c11Call(sp *tars.ServantProxy, callNo int) error {
 // c11RunOnce executes the script once and returns the ordered event log.
 func c11RunOnce(c *c11Case) ([]c11Event, string) {
 	c11InstallHook()
-	log := &c11Log{}
+	log := c11NewLog()
 	if c.Seq < 1 {
 		c.Seq = 1
 	}
-	srv, err := c11StartServer(c.Mode, c.Burst*c.Seq, log)
+	k := c.Burst * c.Seq
+	if c.Mode == "held" {
+		k = -1 // closes on command only
+	}
+	srv, err := c11StartServer(c.Mode, k, log)
 	if err != nil {
 		return nil, "listen: " + err.Error()
 	}
@@ -408,6 +445,9 @@ func c11RunOnce(c *c11Case) ([]c11Event, string) {
 	}()
 	if err := c11Call(sp, c11WarmID); err != nil {
 		return nil, "warm-up call failed"
+	}
+	if c.Mode == "held" {
+		return c11RunHeld(c, srv, sp, log), ""
 	}
 	callNo := 0
 	for round := 0; round <= c.Rounds; round++ {
@@ -471,6 +511,91 @@ func c11RunOnce(c *c11Case) ([]c11Event, string) {
 	return c11Canon(log), ""
 }
 
+// c11RunHeld is the deterministic script for the loss that falls between the sender's test and its write: the send
+// goroutine is held in the hook with call A, the server closes the connection, the harness waits until the client
+// has observed the close, issues Burst further calls (they must go over a new connection and succeed), then
+// releases the held goroutine: its write fails, and call A must be handed to the new connection and succeed.
+func c11RunHeld(c *c11Case, srv *c11Server, sp *tars.ServantProxy, log *c11Log) []c11Event {
+	callNo := 0
+	for round := 0; round < c.Rounds; round++ {
+		a := callNo
+		callNo++
+		log.mu.Lock()
+		log.holdID = a
+		log.mu.Unlock()
+		var released time.Time
+		var relMu sync.Mutex
+		doneA := make(chan struct{})
+		go func() {
+			defer close(doneA)
+			log.add(c11rawEvent{k: "enq", id: a})
+			t0 := time.Now()
+			err := c11Call(sp, a)
+			relMu.Lock()
+			if released.After(t0) {
+				t0 = released
+			}
+			relMu.Unlock()
+			ms := int(time.Since(t0) / time.Millisecond)
+			if err != nil {
+				log.add(c11rawEvent{k: "fail", id: a, ms: ms})
+			} else {
+				log.add(c11rawEvent{k: "reply", id: a, ms: ms})
+			}
+		}()
+		select {
+		case <-log.held:
+		case <-time.After(4 * time.Second):
+			<-doneA
+			return c11Canon(log)
+		}
+		release := func() {
+			relMu.Lock()
+			released = time.Now()
+			relMu.Unlock()
+			log.release <- struct{}{}
+			<-doneA
+		}
+		tcs := tars.VerifC11Clients(sp)
+		if len(tcs) == 0 {
+			release()
+			return c11Canon(log)
+		}
+		srv.closeConns()
+		observed := false
+		for deadline := time.Now().Add(4 * time.Second); time.Now().Before(deadline); time.Sleep(200 * time.Microsecond) {
+			if closed, conn := transport.VerifC11Conn(tcs[0]); closed && conn != nil {
+				observed = true
+				log.add(c11rawEvent{k: "obs", id: -1, port: c11PortOf(conn.LocalAddr())})
+				break
+			}
+		}
+		if !observed {
+			release()
+			return c11Canon(log)
+		}
+		if c.DelayUs > 0 {
+			time.Sleep(time.Duration(c.DelayUs) * time.Microsecond)
+		}
+		for b := 0; b < c.Burst; b++ {
+			id := callNo
+			callNo++
+			log.add(c11rawEvent{k: "enq", id: id})
+			t0 := time.Now()
+			err := c11Call(sp, id)
+			ms := int(time.Since(t0) / time.Millisecond)
+			if err != nil {
+				log.add(c11rawEvent{k: "fail", id: id, ms: ms})
+			} else {
+				log.add(c11rawEvent{k: "reply", id: id, ms: ms})
+			}
+		}
+		release()
+	}
+	time.Sleep(5 * time.Millisecond)
+	return c11Canon(log)
+}
+
 // c11Canon turns the raw log into the canonical trace: generations are numbered in accept order, a dial event
 // is placed before the first event that mentions the generation, ports and timestamps are dropped.
 func c11Canon(l *c11Log) []c11Event {
@@ -529,6 +654,9 @@ func c11Monitor(c *c11Case, evs []c11Event) map[string]string {
 		per = c.Burst
 	}
 	total := (c.Rounds + 1) * per
+	if c.Mode == "held" {
+		per, total = 0, c.Rounds*(1+c.Burst)
+	}
 	arrivals := map[int]int{}
 	closedByPeer := map[int]bool{}
 	lastDial := -1
@@ -692,6 +820,13 @@ func c11Gen(tier string, rng *rand.Rand) []c11Case {
 				}
 			}
 		}
+	}
+	for r := 0; r < 4*reps; r++ {
+		d := []int{0, 1000, 50000}[r%3]
+		if d > 0 {
+			d = d/2 + rng.Intn(d)
+		}
+		cs = append(cs, c11Case{Mode: "held", Burst: 1 + r%3, Seq: 1, DelayUs: d, Rounds: 2 + rng.Intn(3)})
 	}
 	rng.Shuffle(len(cs), func(i, j int) { cs[i], cs[j] = cs[j], cs[i] })
 	return cs
